@@ -163,6 +163,55 @@ UNK_DEBUG = None
 REGTYPE_OF = {"xmm": "kVec128", "ymm": "kVec256", "zmm": "kVec512", "k": "kMask", "mm": "kX86_Mm"}
 
 
+class _Ret(Exception):
+    def __init__(self, v):
+        self.v = v
+
+
+def _eval_stmt(fn, stmt, env, leaf_base):
+    """evaluates a loop-free statement over an environment of locals (did -> value): compound statements, if statements, declarations,
+    assignments to locals and `return <expr>` (raises _Ret); expressions are folded with lib/exprfold.py"""
+    x = fn.e(stmt)
+    if x is None:
+        return
+
+    def leaf(text, node):
+        if node["k"] == "ref" and node.get("did") in env:
+            return env[node["did"]]
+        return leaf_base(text, node)
+
+    def fold(e):
+        return Folder({}, leaf, width=64).fold(fn, e)
+    k = x["k"]
+    if k == "s:CompoundStmt":
+        for c in x.get("ch", []):
+            _eval_stmt(fn, c, env, leaf_base)
+    elif k == "s:IfStmt":
+        rest = [c for c in x.get("ch", []) if c != x["cond"]]
+        if fold(x["cond"]):
+            if rest:
+                _eval_stmt(fn, rest[0], env, leaf_base)
+        elif len(rest) > 1:
+            _eval_stmt(fn, rest[1], env, leaf_base)
+    elif k == "decl":
+        for v in x["vars"]:
+            if v.get("init") is not None:
+                env[v["did"]] = fold(v["init"])
+    elif k == "return":
+        raise _Ret(fold(x["val"]) if x.get("val") is not None else None)
+    elif k == "binop" and x["op"] == "=":
+        l = fn.e(fn.strip(x["lhs"]))
+        if l is not None and l["k"] == "ref" and l.get("dk") == "local":
+            env[l["did"]] = fold(x["rhs"])
+        else:
+            raise Unknown()
+    elif k in ("s:NullStmt", "s:DeclStmt"):
+        for c in x.get("ch", []):
+            _eval_stmt(fn, c, env, leaf_base)
+    elif k.startswith("s:"):
+        raise Unknown()
+
+
 def _fold_decision(fn, stmt, did, value, leaf_factory):
     """value of the bool local `did` after the (loop-free) statement `stmt`: compound statements, if statements and assignments of
     constants to the local; conditions are folded with lib/exprfold.py"""
@@ -188,6 +237,39 @@ def _fold_decision(fn, stmt, did, value, leaf_factory):
     return value
 
 
+def _leaf_for(fn, sh, mask, name, idv):
+    def leaf(text, node):
+        if node["k"] == "ref" and node.get("name") == "op_count":
+            return len(sh)
+        if node["k"] == "ref" and node.get("name") == "inst_id":
+            return idv[name]
+        nm = node.get("cvn") if (node.get("cvn") or "").startswith("kId") else node.get("name")
+        if (nm or "").startswith("kId") and nm[3:].lower() in idv:
+            return idv[nm[3:].lower()]
+        if node["k"] == "member" and node.get("field") == "reg_type_mask":
+            return mask
+        if node["k"] in ("call", "mcall") and node.get("cn") == "bit_mask" and node.get("args"):
+            v_ = 0
+            for a_ in node["args"]:
+                ax_ = fn.e(fn.strip(a_))
+                if ax_ is None or not isinstance(ax_.get("cv"), int):
+                    raise Unknown()
+                v_ |= 1 << ax_["cv"]
+            return v_
+        if node["k"] == "mcall" and node.get("obj") is not None:
+            o = fn.e(fn.strip(node["obj"]))
+            if o is not None and o["k"] == "subscript":
+                ix = fn.e(fn.strip(o.get("idx", o.get("index"))))
+                k = ix.get("cv") if ix is not None else None
+                if isinstance(k, int) and k < len(sh):
+                    kind = sh[k][0]
+                    t = {"is_mem": kind == "mem", "is_imm": kind == "imm", "is_reg": kind == "reg"}
+                    if node.get("cn") in t:
+                        return int(t[node["cn"]])
+        raise Unknown()
+    return leaf
+
+
 def run_avx2(chk, rule="R-AVX2-FEATURE-DB-AGREE", floor=100):
     chk.rule(rule, "x86 query_features(): for every mnemonic whose VEX forms are split between AVX and AVX2 in db/isa_x86.json and every operand "
                    "shape of those forms, the `is_avx2` decision - folded from the source over the shape (vbroadcastss/sd by the kind of the "
@@ -208,10 +290,19 @@ def run_avx2(chk, rule="R-AVX2-FEATURE-DB-AGREE", floor=100):
     chk.need(comp is not None and fn.e(comp)["k"] == "s:CompoundStmt", "query_features: is_avx2 is not declared in a compound statement")
     did = decl[1]["did"]
     init = fn.e(fn.strip(decl[1]["init"])) if decl[1].get("init") is not None else None
-    chk.need(init is not None and isinstance(init.get("cv"), int), "query_features: is_avx2 has no constant initialiser")
+    helper = None
+    if init is not None and init["k"] == "call" and not isinstance(init.get("cv"), int):
+        # the decision lives in a unit-local helper: `bool is_avx2 = helper(inst_id, operands, op_count, reg_analysis)`
+        fh = chk.facts("asmjit/x86/x86instapi.cpp", funcs=r"asmjit::x86::[A-Za-z_0-9:]+$")
+        for g in cfg.load_functions(fh):
+            if g.name == init.get("callee") and g.file.endswith("x86instapi.cpp"):
+                helper = g
+        chk.need(helper is not None, "query_features: the helper that decides is_avx2 (%s) was not found" % init.get("callee"))
+    else:
+        chk.need(init is not None and isinstance(init.get("cv"), int), "query_features: is_avx2 has neither a constant initialiser nor a helper call")
     after = [c for c in fn.e(comp)["ch"] if fn.line_of(c) > fn.line_of(decl[0])]
     stmts = [c for c in after if fn.e(c)["k"] == "s:IfStmt"]
-    chk.need(stmts, "query_features: no decision follows is_avx2")
+    chk.need(stmts or helper is not None, "query_features: no decision follows is_avx2")
 
     db = x86db.load_db(chk)
     by_name = {}
@@ -247,43 +338,26 @@ def run_avx2(chk, rule="R-AVX2-FEATURE-DB-AGREE", floor=100):
                         if str(w).startswith(("vm32y", "vm64y")):
                             mask |= 1 << rtv["kVec256"]
 
-                def leaf_factory(sh=sh, mask=mask, name=name):
-                    def leaf(text, node):
-                        if node["k"] == "ref" and node.get("name") == "op_count":
-                            return len(sh)
-                        if node["k"] == "ref" and node.get("name") == "inst_id":
-                            return idv[name]
-                        if (node.get("cvn") or node.get("name") or "").startswith("kId") and (node.get("cvn") or node.get("name"))[3:].lower() in idv:
-                            return idv[(node.get("cvn") or node.get("name"))[3:].lower()]
-                        if node["k"] == "member" and node.get("field") == "reg_type_mask":
-                            return mask
-                        if node["k"] in ("call", "mcall") and node.get("cn") == "bit_mask" and node.get("args"):
-                            v_ = 0
-                            for a_ in node["args"]:
-                                ax_ = fn.e(fn.strip(a_))
-                                if ax_ is None or not isinstance(ax_.get("cv"), int):
-                                    raise Unknown()
-                                v_ |= 1 << ax_["cv"]
-                            return v_
-                        if UNK_DEBUG is not None:
-                            UNK_DEBUG.add(text[:60])
-                        if node["k"] == "mcall" and node.get("obj") is not None:
-                            o = fn.e(fn.strip(node["obj"]))
-                            if o is not None and o["k"] == "subscript":
-                                ix = fn.e(fn.strip(o.get("idx", o.get("index"))))
-                                k = ix.get("cv") if ix is not None else None
-                                if isinstance(k, int) and k < len(sh):
-                                    kind = sh[k][0]
-                                    t = {"is_mem": kind == "mem", "is_imm": kind == "imm", "is_reg": kind == "reg"}
-                                    if node.get("cn") in t:
-                                        return int(t[node["cn"]])
-                        raise Unknown()
-                    return leaf
                 unk = False
-                computed = bool(init["cv"])
+                computed = None
                 try:
-                    for st in stmts:
-                        computed = _fold_decision(fn, st, did, computed, leaf_factory)
+                    if helper is not None:
+                        # parameters are matched by name (inst_id, operands, op_count, reg_analysis): the leaf resolves them by name
+                        hfn = helper
+                        body = [i_ for i_, x_ in hfn.ex.items() if x_["k"] == "s:CompoundStmt" and i_ not in hfn.parent_map()]
+                        top = body[0] if body else min(i_ for i_, x_ in hfn.ex.items() if x_["k"] == "s:CompoundStmt")
+                        base = _leaf_for(hfn, sh, mask, name, idv)
+                        try:
+                            _eval_stmt(hfn, top, {}, base)
+                            raise Unknown()
+                        except _Ret as r_:
+                            computed = bool(r_.v)
+                    else:
+                        env = {did: int(bool(init["cv"]))}
+                        base = _leaf_for(fn, sh, mask, name, idv)
+                        for st in stmts:
+                            _eval_stmt(fn, st, env, base)
+                        computed = bool(env[did])
                 except Unknown:
                     unk = True
                 n += 1
